@@ -51,7 +51,7 @@ theorem syncParts_length (idx : List (Int × Nat)) : ∀ (parts : List Partition
     intro ps ps' h
     simp only [syncParts] at h
     split at h
-    · simp at h
+    · exact ih _ _ h
     · have := ih _ _ h
       simpa using this
 
@@ -70,7 +70,15 @@ theorem syncParts_spec (idx : List (Int × Nat)) : ∀ (parts : List PartitionMd
     intro ps ps' k h hk
     simp only [syncParts] at h
     split at h
-    · simp at h
+    · -- an entry whose id is no index of the vector is ignored: it is not the entry for any `k` in range
+      rename_i hout
+      rw [ih _ _ k h hk]
+      simp only [lastFor, List.reverse_cons, List.find?_append]
+      cases hr : r.reverse.find? (fun q => decide (q.id = (k : Int))) with
+      | some q => simp
+      | none =>
+        have hpk : ¬ p.id = (k : Int) := by omega
+        simp [hpk]
     · rename_i hin
       have hlen : k < (ps.set p.id.toNat ((assocGet idx p.leader).getD UNKNOWN)).length := by simpa using hk
       rw [ih _ _ k h hlen]
@@ -85,18 +93,23 @@ theorem syncParts_spec (idx : List (Int × Nat)) : ∀ (parts : List PartitionMd
         · have : p.id.toNat ≠ k := by omega
           simp [hpk, List.getElem?_set, this]
 
-/-- the loop fails (index panic in the Rust code, state.rs:305) exactly when some entry's id is outside 0..len-1 -/
-theorem syncParts_ok (idx : List (Int × Nat)) : ∀ (parts : List PartitionMd) (ps : List Nat),
-    (∀ p ∈ parts, 0 ≤ p.id ∧ p.id.toNat < ps.length) → ∃ ps', syncParts idx parts ps = some ps' := by
+/-- the loop never fails, whatever ids the response carries (it was an index panic, state.rs:305, for an id outside
+    0..len-1 before the repair) -/
+theorem syncParts_total (idx : List (Int × Nat)) : ∀ (parts : List PartitionMd) (ps : List Nat),
+    ∃ ps', syncParts idx parts ps = some ps' := by
   intro parts
   induction parts with
-  | nil => intro ps _; exact ⟨ps, rfl⟩
+  | nil => intro ps; exact ⟨ps, rfl⟩
   | cons p r ih =>
-    intro ps h
-    obtain ⟨h0, h1⟩ := h p (by simp)
-    have hn : ¬ (p.id < 0 ∨ p.id.toNat ≥ ps.length) := by omega
-    simp only [syncParts, hn, if_false]
-    exact ih _ (fun q hq => by simpa using h q (by simp [hq]))
+    intro ps
+    simp only [syncParts]
+    split
+    · exact ih _
+    · exact ih _
+
+theorem syncParts_ok (idx : List (Int × Nat)) (parts : List PartitionMd) (ps : List Nat)
+    (_ : ∀ p ∈ parts, 0 ≤ p.id ∧ p.id.toNat < ps.length) : ∃ ps', syncParts idx parts ps = some ps' :=
+  syncParts_total idx parts ps
 
 /-! ### brokers: indices are stable, addresses are the latest advertised -/
 
